@@ -283,7 +283,8 @@ class Check:
         return r
 
     def finish(self, level='proof', technique='', trusted=None, explanation=''):
-        os.makedirs(os.path.join(ROOT, 'evidence'), exist_ok=True)
+        evdir = os.environ.get('VERIF_EVIDENCE_DIR') or os.path.join(ROOT, 'evidence')   # seed evaluations on scratch trees redirect it
+        os.makedirs(evdir, exist_ok=True)
         os.makedirs(os.path.join(ROOT, 'replays'), exist_ok=True)
         # a violation backed by a concrete input outranks a bare broken obligation
         witnessed = [v for v in self.violations if v['kind'] == 'correspondence' or v.get('witness')]
@@ -304,7 +305,7 @@ class Check:
                   'samples': self.samples[:12], 'input_classes': self.classes, 'fuel_abstentions': self.abstain,
                   'notes': self.notes, 'explanation': explanation}, **self.extra),
               'assumptions': trusted or [], 'wall_s': round(time.time() - self.t0, 2), 'violations': len(self.violations)}
-        json.dump(ev, open(os.path.join(ROOT, 'evidence', self.prop + '.json'), 'w'), indent=1)
+        json.dump(ev, open(os.path.join(evdir, self.prop + '.json'), 'w'), indent=1)
         for k in self.known:
             print('KNOWN-FINDING: property=%s %s' % (self.prop, k['what']))
         for n in self.notes: print('  ' + n)
